@@ -116,6 +116,12 @@ def run_item(item):
             forms = [("tensor3d", vals.clone()), ("points3d", Points(vals.clone(), Space({"e": 1})))]
             pset = CustomFunctionSet(fs, GridSampler(Interval(Space({"k": 1}), 0, 1), F), lambda k, t: torch.sin(3 * k * t) + k)
             forms.append(("functionset", pset))
+            if F >= 2:
+                # the same functions supplied as a SUM of two function sets (first one function, then the rest)
+                from torchphysics.problem.samplers import DataSampler
+                def pset_of(kk):
+                    return CustomFunctionSet(fs, DataSampler({"k": torch.tensor(kk, dtype=torch.float32).reshape(-1, 1)}), lambda k, t: torch.sin(3 * k * t) + k)
+                forms.append(("functionset-sum", pset_of(ks[:1]) + pset_of(ks[1:])))
             if F == 1:
                 k0 = float(ks[0])
                 forms += [("callable", lambda t, k0=k0: torch.sin(3 * k0 * t) + k0), ("tensor2d", vals[0].clone()),
